@@ -37,7 +37,7 @@ ABS_SRC = {
 
 class AsmLayout:
     name = "asm_layout"
-    props = ("C02", "C03", "C13", "C01", "C04")
+    props = ("C02", "C03", "C13", "C01", "C04", "C17")
 
     def cells(self, tier):
         out = []
